@@ -1,9 +1,11 @@
 package harness
 
 import (
+	"context"
 	"fmt"
 
 	hms "github.com/smarthome-go/homescript/v3/homescript"
+	herrors "github.com/smarthome-go/homescript/v3/homescript/errors"
 	"github.com/smarthome-go/homescript/v3/homescript/runtime"
 	"github.com/smarthome-go/homescript/v3/homescript/runtime/value"
 )
@@ -18,6 +20,7 @@ type vmEnv struct {
 	exec   VMExec
 	vm     *runtime.VM
 	limits runtime.CoreLimits
+	tick   func() // host builtin `tick()`: called by workloads once per iteration
 }
 
 func newVMEnv(prog *compiled, limits runtime.CoreLimits) *vmEnv {
@@ -28,7 +31,14 @@ func newVMEnv(prog *compiled, limits runtime.CoreLimits) *vmEnv {
 // boot creates the VM (runs the program's initialiser, as the product does).
 func (e *vmEnv) boot() {
 	ctxp, cfp := e.ctx.AsContext()
-	vm := runtime.NewVM(e.prog.out, value.Executor(e.exec), ctxp, cfp, hms.TestingVmScopeAdditions(), e.limits)
+	adds := hms.TestingVmScopeAdditions()
+	adds["tick"] = *value.NewValueBuiltinFunction(func(executor value.Executor, cancelCtx *context.Context, span herrors.Span, args ...value.Value) (*value.Value, *value.VmInterrupt) {
+		if e.tick != nil {
+			e.tick()
+		}
+		return value.NewValueNull(), nil
+	})
+	vm := runtime.NewVM(e.prog.out, value.Executor(e.exec), ctxp, cfp, adds, e.limits)
 	e.vm = &vm
 }
 
